@@ -81,15 +81,20 @@ func (s c02State) policy() scen.Policy {
 		TargetsPrincipals: rootPrincipals(s.TgtKeys), TargetsThreshold: s.TgtThr,
 	}
 	if !s.NoTargets {
-		tf := scen.RuleFile{Name: "targets", Principals: []scen.Principal{keyPrincipal("k1"), keyPrincipal("k2")}, Signers: s.TgtSigned, Version: s.TgtVer,
+		tf := scen.RuleFile{Name: "targets", Principals: []scen.Principal{keyPrincipal("k1"), {ID: "deleg-person", Keys: []string{"k2"}, Person: true}}, Signers: s.TgtSigned, Version: s.TgtVer,
 			Rules: []scen.Rule{{Name: "protect-main", Patterns: []string{"git:" + refMain}, Principals: []string{"P1"}, Threshold: 1}}}
 		if s.DelegRule {
-			tf.Rules = append(tf.Rules, scen.Rule{Name: "protect-rel", Patterns: []string{"git:refs/heads/rel/*"}, Principals: []string{"P2"}, Threshold: 1})
+			tf.Rules = append(tf.Rules, scen.Rule{Name: "protect-rel", Patterns: []string{"git:refs/heads/rel/*"}, Principals: []string{"deleg-person"}, Threshold: 1})
 		}
 		p.Files = append(p.Files, tf)
 	}
 	if s.Deleg {
-		p.Files = append(p.Files, scen.RuleFile{Name: "protect-rel", Principals: []scen.Principal{keyPrincipal("k3")}, Signers: s.DelegSig, Version: s.DelegVer,
+		dprs := []scen.Principal{keyPrincipal("k3")}
+		if s.Defect == "deleg-redefines-its-delegate" {
+			// the delegated file re-declares the person its delegator trusts, with the forger's key
+			dprs = append(dprs, scen.Principal{ID: "deleg-person", Keys: []string{"kx"}, Person: true})
+		}
+		p.Files = append(p.Files, scen.RuleFile{Name: "protect-rel", Principals: dprs, Signers: s.DelegSig, Version: s.DelegVer,
 			Rules: []scen.Rule{{Name: "rel-inner", Patterns: []string{"git:refs/heads/rel/*"}, Principals: []string{"P3"}, Threshold: 1}}})
 	}
 	return p
@@ -103,7 +108,7 @@ func c02Base(shape int) c02State {
 }
 
 var c02Evolutions = []string{"same", "bump-versions", "rotate-root", "resign"}
-var c02Defects = []string{"root-new-keys-only", "root-too-few-old", "root-non-root-key", "targets-wrong-key", "targets-too-few", "deleg-wrong-key", "dangling-deleg", "root-version-lowered", "targets-version-lowered", "deleg-version-lowered", "deleg-removed", "targets-removed"}
+var c02Defects = []string{"deleg-redefines-its-delegate", "root-new-keys-only", "root-too-few-old", "root-non-root-key", "targets-wrong-key", "targets-too-few", "deleg-wrong-key", "dangling-deleg", "root-version-lowered", "targets-version-lowered", "deleg-version-lowered", "deleg-removed", "targets-removed"}
 
 // next derives the successor of prev: a valid evolution, then optionally a defect.
 func c02Next(prev c02State, evolution, defect string) (c02State, bool) {
@@ -160,7 +165,7 @@ func c02Next(prev c02State, evolution, defect string) (c02State, bool) {
 			return n, false
 		}
 		n.TgtSigned = []string{"t1"}
-	case "deleg-wrong-key":
+	case "deleg-wrong-key", "deleg-redefines-its-delegate":
 		n.DelegSig = []string{"kx"}
 	case "dangling-deleg":
 		n.DelegRule = false
